@@ -157,7 +157,7 @@ def fold_int_twin(a: int, b: int) -> bool:
 
 # ---------------------------------------------------------------------------------------------------------------
 # (2) representative values of every literal type, real printer, real evaluation of the printed text
-VALS = [0, 1, 2, 3, 10, 1024, 10 ** 16, True, False, 1.0, 8j, 0.0, 0.5, 1e16, 1e999, 2j]
+VALS = [0, 1, 2, 3, 10, 1024, 10 ** 16, True, False, 1.0, 8j, 0.0, 0.5, 1e16, 1e999, 2j, 1e16j, 100000j]
 N_VALS = len(VALS)
 
 
@@ -344,12 +344,12 @@ N_NUMS = len(NUMS)
 VARIANT_PAIRS = [(c, d) for c in range(4) for d in range(4)]
 
 
-def fold_pairs_b(b0: bool, b1: bool, b2: bool, b3: bool, b4: bool, b5: bool, b6: bool, b7: bool, b8: bool, b9: bool, b10: bool, b11: bool, b12: bool, b13: bool, b14: bool, b15: bool) -> bool:
+def fold_pairs_b(b0: bool, b1: bool, b2: bool, b3: bool, b4: bool, b5: bool, b6: bool, b7: bool, b8: bool, b9: bool, b10: bool, b11: bool, b12: bool, b13: bool, b14: bool, b15: bool, b16: bool) -> bool:
     """
     post: _
     """
     # index bits: b0-b3 operator, then operand a, operand b, type-variant pair (mixed radix)
-    return untraced(_fold_pairs_b_impl, bits_index(b0, b1, b2, b3, b4, b5, b6, b7, b8, b9, b10, b11, b12, b13, b14, b15))
+    return untraced(_fold_pairs_b_impl, bits_index(b0, b1, b2, b3, b4, b5, b6, b7, b8, b9, b10, b11, b12, b13, b14, b15, b16))
 
 
 def _fold_pairs_b_impl(idx):
